@@ -141,4 +141,20 @@ PROPS = {
         "assumptions": ["harness trait implementations follow the trait contracts"],
         "trusted_base": COMMON_TB + ["modelled, not verified: state_machine.rs do_omaha_request_and_update_context, update_check.rs Context::load/persist"],
     },
+    "C06": {
+        "run": ["EvalProps"], "functional": False,
+        "n": {"quick": 300, "thorough": 6000},
+        "level_text": "Theorem C06_retry_monitor_accepts_every_model_trace: for every script, configuration and entry point the model's trace is accepted by the executable "
+                      "retry monitor step6 (at most 3 attempts; a further attempt only after a retryable outcome, with fewer than 3 attempts, no poll interval in force, and exactly "
+                      "one wait inside the k-th window; no waits or retries among event reports; RequestsPerCheck = attempts made with the right success flag; the loop stops only "
+                      "when it must).  Plus: the back-off window is attained by every value (randomised).  Model tied to code by trace equality; the monitor, and a session/request-id "
+                      "monitor (one session per check, pairwise distinct request ids over the whole history), run on every implementation trace; observed jitter values are recorded.",
+        "level_note": "Proved for the model, unbounded.  The session-id/request-id clause is checked on implementation traces and by trace equality, not proved for the model "
+                      "(it needs an environment-level argument about GUID draws).  ResponseTime metric count is covered by trace equality only.  Jitter is compared by window.",
+        "diff_meaning": "The retry monitor rejects the implementation's trace (code 2), or the request/wait/metric projection differs from the model's.",
+        "rule": "random scripted environments with per-attempt outcomes from {transport error, timeout, caller error, status classes, X-Retry-After, forged, unparseable, success}; "
+                "distinct = distinct implementation trace; non-trivial = at least one request",
+        "assumptions": ["harness trait implementations follow the trait contracts"],
+        "trusted_base": COMMON_TB + ["modelled, not verified: state_machine.rs perform_update_check attempt loop, do_omaha_request_and_update_context, randomize"],
+    },
 }
